@@ -24,7 +24,7 @@ RandOpt(c, ic) ==
       z == RandomElement(1..5) IN          \* z = 1: present but empty
   CASE c.kind = "leaf" ->
          IF r = 1 THEN {} ELSE IF IsEmptyType(c.typ) THEN {D(c.name, << >>, {})}
-         ELSE {D(c.name, <<IF r = 2 THEN "2" ELSE "1">>, {})}
+         ELSE {D(c.name, <<IF r = 2 THEN "10" ELSE "2">>, {})}
     [] c.kind = "leaflist" -> IF r = 1 THEN {} ELSE IF z = 1 /\ ~ic THEN {D(c.name, << >>, {})} ELSE {D(c.name, LLVals(r - 1), {})}
     [] c.kind = "container" ->
          LET k == RandData(c.kids, FALSE) IN
